@@ -85,6 +85,22 @@ fn exec_guarded(w: &mut World, op: &Op) -> Result<R, HarnessError> {
             if is_harness_location(&loc) {
                 return Err(HarnessError(format!("harness panic at {}: {} (during {})", loc, msg, op.encode())));
             }
+            // a panic while an oracle of property P was being evaluated (e.g. calc_outcome inside
+            // the C14 invariant) belongs to P, whatever operation preceded the check
+            if w.judging != 0 {
+                let p = w.judging;
+                w.judging = 0;
+                if w.on(p) {
+                    return Ok(Err(w.fail(
+                        p,
+                        "panic",
+                        format!("observing the chain after {} panicked at {}: {}", op.pretty(), loc, msg),
+                    )));
+                }
+                w.stats.hit("note.run-aborted-by-out-of-scope-panic");
+                w.props = 0;
+                return Ok(Ok(Exec::Skipped));
+            }
             for p in World::panic_props(op, &loc) {
                 if w.on(*p) {
                     return Ok(Err(w.fail(
